@@ -618,6 +618,13 @@ func (st *dbState) exec(op dbOp) Ev {
 		}
 		return Ev{"op": "next", "it": op.It, "src": srcMap(op.Src), "take": op.Take, "cs": cs, "cw": cw,
 			"ex": exhausted, "w": w}
+	case "dbstop":
+		// DB.Stop() from another goroutine (schedule driver only): the collector is told to stop wherever it is
+		if !st.concurrent {
+			return nop
+		}
+		go st.db.Stop()
+		return Ev{"op": "nop", "what": "dbstop"}
 	case "derive":
 		// statedb.Derive from table T into table T2: a job of the library mirrors T (its own change iterator) into
 		// T2 with deriveTransform.  Sequential driver only, no table held.
